@@ -8,7 +8,20 @@ import "github.com/cloudwego/frugal/internal/vrt"
 // deepMsg: a DpRec message nested d levels through the given position:
 // 0 struct field (2: *DpRec), 1 list element (3: list<DpRec>), 2 map value (4: map<i32:DpRec>), 3 map key (5: map<DpRec:i32>),
 // 4 mixture (cycling through 0..3).
-func deepMsg2(d int, via int, leaf uint32) []byte {
+func deepMsg2(d int, via int, leaf uint32) []byte { return deepMsgWide(d, via, leaf, 0) }
+
+// deepMsgWide: as deepMsg2, but every level first carries `wide` sibling fields of variable size (empty list<DpRec> in
+// field 3 / empty map<i32:DpRec> in field 4, alternating) before the field that continues the nest: the depth of a
+// message is its nesting, however many fields the structs on the way down have.
+func deepMsgWide(d int, via int, leaf uint32, wide int) []byte {
+	var sib []byte
+	for w := 0; w < wide; w++ {
+		if w%2 == 0 {
+			sib = append(sib, 15, 0, 3, 12, 0, 0, 0, 0)
+		} else {
+			sib = append(sib, 13, 0, 4, 8, 12, 0, 0, 0, 0)
+		}
+	}
 	pres := make([][]byte, 0, d)
 	sufs := make([][]byte, 0, d)
 	for l := 0; l < d; l++ {
@@ -18,16 +31,16 @@ func deepMsg2(d int, via int, leaf uint32) []byte {
 		}
 		switch v {
 		case 0:
-			pres = append(pres, []byte{12, 0, 2})
+			pres = append(pres, append(append([]byte{}, sib...), 12, 0, 2))
 			sufs = append(sufs, []byte{0})
 		case 1:
-			pres = append(pres, []byte{15, 0, 3, 12, 0, 0, 0, 1})
+			pres = append(pres, append(append([]byte{}, sib...), 15, 0, 3, 12, 0, 0, 0, 1))
 			sufs = append(sufs, []byte{0})
 		case 2:
-			pres = append(pres, []byte{13, 0, 4, 8, 12, 0, 0, 0, 1, 0, 0, 0, byte(l)})
+			pres = append(pres, append(append([]byte{}, sib...), 13, 0, 4, 8, 12, 0, 0, 0, 1, 0, 0, 0, byte(l)))
 			sufs = append(sufs, []byte{0})
 		default:
-			pres = append(pres, []byte{13, 0, 5, 12, 8, 0, 0, 0, 1})
+			pres = append(pres, append(append([]byte{}, sib...), 13, 0, 5, 12, 8, 0, 0, 0, 1))
 			sufs = append(sufs, []byte{0, 0, 0, byte(l), 0})
 		}
 	}
@@ -35,6 +48,7 @@ func deepMsg2(d int, via int, leaf uint32) []byte {
 	for _, p := range pres {
 		out = append(out, p...)
 	}
+	out = append(out, sib...)
 	out = append(out, 8, 0, 1, byte(leaf>>24), byte(leaf>>16), byte(leaf>>8), byte(leaf), 0)
 	for i := len(sufs) - 1; i >= 0; i-- {
 		out = append(out, sufs[i]...)
@@ -65,7 +79,7 @@ func nestLevels(d, via int) int {
 func VerifDepthKnown() {
 	d, via := vrt.Param("d"), vrt.Param("via")
 	leaf := vrt.U32("leaf")
-	msg := deepMsg2(d, via, leaf)
+	msg := deepMsgWide(d, via, leaf, vrt.ParamOr("wide", 0))
 	pw := new(DpRec)
 	vrt.SetOwner("dec")
 	vrt.Phase("decode")
